@@ -11,6 +11,28 @@ HEX = "OpenVolumeMesh::HexahedralMeshTopologyKernel"
 VALENCE = {TET: {"add_face": 3, "add_cell": 4, "cell_face": 3}, HEX: {"add_face": 4, "add_cell": 6, "cell_face": 4}}
 
 
+class RawInline:
+    """resolves an expression and follows locals (iterators, references, copies) to their initialisers, so that an
+    algorithm call on an iterator can be traced to the mesh data member it ranges over"""
+
+    def __init__(self, f):
+        from .canon import Canon
+        self.f = f
+        self.cn = Canon(f)
+
+    def sub_raw(self, node, depth=0):
+        n = self.f.resolve(node)
+        out = [n]
+        if depth > 6:
+            return out
+        for y in walk(n):
+            if isinstance(y, dict) and y.get("k") == "var" and y.get("id") in self.cn.decl:
+                init = self.cn.decl[y["id"]][0].get("init")
+                if init is not None:
+                    out += self.sub_raw(init, depth + 1)
+        return out
+
+
 def handle_fns(fb, cls, name):
     """the handle-based overloads (vector<HEH>/vector<HFH>/two VH + bool)"""
     out = []
@@ -95,9 +117,14 @@ def run(ck, fb, fbd):
         (ck.ok if ok else lambda r, w, t: ck.violate(r, w, t, "C11.accept:%s:handle" % name))("C11.accept", f.loc(accept[0][2]), "%s returns the handle %s.size()-1 of the appended entity" % (name, g["member"]))
         # N: effect blocks
         eff_pos = [e["pos"] for e in effs] + [e["pos"] for e in elem.get(f.id, [])]
+        cnx = RawInline(f)
         for b, i, x in f.nodes(("call",)):
             if x.get("u") in mutating and b in f.reach():
                 eff_pos.append((b, i))
+            # algorithms that permute / overwrite a range or element of a mesh data member (move-to-front, swap, sort ...)
+            if x.get("pn", "") in ("std::iter_swap", "std::swap", "std::rotate", "std::reverse", "std::sort", "std::swap_ranges", "std::fill", "std::copy", "std::remove", "std::unique") and b in f.reach():
+                if any(isinstance(y, dict) and y.get("k") == "mem" and y.get("o") == TK for a_ in x.get("a", []) for y in walk(cnx.sub_raw(a_))):
+                    eff_pos.append((b, i))
         for b, i, x in reject:
             bad = [p for p in eff_pos if p[0] == b and p[1] < i or (p[0] != b and b in f.reachable_from(p[0]))]
             (ck.ok if not bad else lambda r, w, t: ck.violate(r, w, t, "N.reject:%s" % f.pq))("N.reject", f.loc(x), "%s: 'return %s' is not preceded by any state effect" % (name, estr(x.get("x"))[:40]))
@@ -120,6 +147,16 @@ def run(ck, fb, fbd):
             base_calls = [(b, i, x) for b, i, x in f.nodes(("call",)) if x.get("pn") == TK + "::" + name and b in f.reach()]
             if not base_calls:
                 raise AnalysisBroken("C11: %s::%s does not call the base implementation" % (cls, name))
+            # the override hands its topology-check request on to the base implementation
+            bools = [p_["n"] for p_ in f.d["params"] if p_["t"] == "bool"]
+            for b, i, x in base_calls:
+                a_ = f.resolve(x.get("a", []))
+                chk = unwrap(a_[1]) if len(a_) > 1 else None
+                while isinstance(chk, dict) and chk.get("k") in ("defarg", "definit"):
+                    chk = unwrap(chk.get("x"))
+                explicit = len(x.get("a", [])) > 1 and unwrap(x["a"][1]).get("k") != "defarg"
+                okc = explicit and isinstance(chk, dict) and chk.get("k") == "var" and chk.get("n") in bools
+                (ck.ok if okc else lambda r, w, t: ck.violate(r, w, t, "C11.valence:%s:%s:forward" % (cls.split("::")[-1], name)))("C11.valence", f.loc(x), "%s::%s passes its _topologyCheck argument on to the base class (found %s)" % (cls.split("::")[-1], name, estr(a_[1])[:30] if len(a_) > 1 else "nothing"))
             want = "(%s.size() != %d)" % (p0, vals[name])
             for b, i, x in base_calls:
                 ok = (want, False) in atoms(f, b)
